@@ -1,9 +1,268 @@
+/-
+  C13 — string codecs invert exactly; positions count characters; escaping is safe.
+
+  All statements are about the impl-models of `JaqVerif/C13/*.lean` (tied to the Rust code by
+  the regenerated per-byte tables `Gen/C13Tables.lean` and by the correspondence run of
+  `checks/c13.py`) and quantify over ALL byte strings: any length, any Unicode, control
+  characters, invalid UTF-8.  `Bytes = List UInt8`; a "character" is a chunk of `Jaq.Utf8.chars`
+  (valid scalar value, or a maximal invalid sequence counting as ONE position, like bstr).
+
+  Consumers (`shWords`, `csvRead`, `tsvReadRow`, `htmlDecode`, `percentDecode`) are independent
+  models written from the consumers' specifications (C13/Consumers.lean, C13/Readers.lean).
+-/
+import JaqVerif.Lemmas.C13Rows
+import JaqVerif.Lemmas.C13B64
+import JaqVerif.Lemmas.C13Pos
+import JaqVerif.Lemmas.C13Urid
 import JaqVerif.C13.Filters
-import JaqVerif.C13.Consumers
 
 namespace Jaq.C13.Props
+open Jaq Jaq.C13
 
-theorem tostring_tobytes (s : Bytes) : (toBytes (.tstr s)).map Val.tstr = some (.tstr s) := by
-  simp [toBytes, toBytesF, Val.size]
+/-! ## 1. codecs invert exactly -/
+
+/-- `explode | implode` returns every string unchanged (invalid bytes travel as negative numbers) -/
+theorem implode_explode (s : Bytes) : implode (explode s) = some s :=
+  implode_explode_all s
+
+/-- `tobytes | tostring` returns every text string unchanged (both only re-tag the same bytes) -/
+theorem tostring_tobytes (s : Bytes) :
+    (toBytes (.tstr s)).bind (fun b => textOf (.bstr b)) = some s := by
+  simp [toBytes, toBytesF, Val.size, textOf]
+
+/-- `@base64 | @base64d` returns every string unchanged -/
+theorem base64d_base64 (s : Bytes) : b64Decode (b64Encode s) = some s :=
+  b64Decode_encode s
+
+/-- `@uri | @urid` returns every string unchanged -/
+theorem urid_uri (s : Bytes) : urid (uri s) = s :=
+  scan_flatMap' uridStep uriEsc uriEsc_ne_nil uridStep_uriEsc s
+
+/-- `@html | @htmld` returns every string unchanged -/
+theorem htmld_html (s : Bytes) : htmld (html s) = s :=
+  scan_flatMap' htmldStep htmlEsc htmlEsc_ne_nil htmldStep_htmlEsc s
+
+/-- `split($x) | join($x)` returns every string unchanged, for EVERY separator: a non-empty one
+(leftmost non-overlapping occurrences), the empty one (split into characters), and also for the
+empty input (which splits into `[]`, joined to `""`) -/
+theorem join_split (s sep : Bytes) : joinBytes sep (splitBytes s sep) = s :=
+  join_split_all s sep
+
+/-- `ascii_downcase` / `ascii_upcase` keep the length and change nothing but ASCII letters; in
+particular every byte ≥ 0x80 (every byte of a non-ASCII character or of an invalid sequence)
+stays where it is -/
+theorem ascii_case_keeps_non_ascii (s : Bytes) :
+    asciiDown s = s.map downByte ∧ asciiUp s = s.map upByte ∧
+    (∀ b : UInt8, ¬ (65 ≤ b.toNat ∧ b.toNat ≤ 90) → downByte b = b) ∧
+    (∀ b : UInt8, ¬ (97 ≤ b.toNat ∧ b.toNat ≤ 122) → upByte b = b) ∧
+    (∀ (i : Nat) (b : UInt8), s[i]? = some b → 128 ≤ b.toNat → (asciiDown s)[i]? = some b ∧ (asciiUp s)[i]? = some b) := by
+  refine ⟨asciiDown_eq_map s, asciiUp_eq_map s, ?_, ?_, ?_⟩
+  · intro b h
+    unfold downByte
+    split
+    · rename_i hc; simp only [Bool.and_eq_true, decide_eq_true_eq] at hc; exact absurd hc h
+    · rfl
+  · intro b h
+    unfold upByte
+    split
+    · rename_i hc; simp only [Bool.and_eq_true, decide_eq_true_eq] at hc; exact absurd hc h
+    · rfl
+  · intro i b hi hb
+    rw [asciiDown_eq_map, asciiUp_eq_map]
+    simp only [List.getElem?_map, hi, Option.map_some, Option.some.injEq]
+    constructor
+    · unfold downByte
+      split
+      · rename_i hc; simp only [Bool.and_eq_true, decide_eq_true_eq] at hc; omega
+      · rfl
+    · unfold upByte
+      split
+      · rename_i hc; simp only [Bool.and_eq_true, decide_eq_true_eq] at hc; omega
+      · rfl
+
+/-! ## 2. decoders reject rather than truncate -/
+
+/-- `@base64d` accepts EXACTLY the encoder's image: whatever it accepts is the canonical encoding
+of its result — no symbol is ignored, nothing after a padding is dropped, no missing padding or
+stray bits are tolerated; everything else is an error.  `@urid` never drops anything: input without
+a well-formed `%XX` escape comes back unchanged. -/
+theorem decoders_reject_malformed :
+    (∀ t s : Bytes, b64Decode t = some s → t = b64Encode s) ∧
+    (∀ t : Bytes, (∀ s, t ≠ b64Encode s) → b64Decode t = none) ∧
+    (∀ s : Bytes, noEscape s = true → urid s = s) := by
+  refine ⟨fun t s h => b64Decode_only_encodings h, ?_, fun s h => urid_noEscape s.length s (Nat.le_refl _) h⟩
+  intro t h
+  cases hd : b64Decode t with
+  | none => rfl
+  | some s => exact absurd (b64Decode_only_encodings hd) (h s)
+
+example : b64Decode [81, 81] = none ∧ b64Decode [81, 82, 61, 61] = none ∧ b64Decode [81, 81, 61, 61, 81, 81, 61, 61] = none ∧
+    b64Decode [81, 32, 81, 61, 61] = none ∧ b64Decode [81, 81, 61, 61] = some [65] := by decide
+
+example : urid [37, 122, 122, 37, 52] = [37, 122, 122, 37, 52] := by decide
+
+/-! ## 3. positions count characters -/
+
+/-- `length` is the number of characters; `.[i:j]` (0 ≤ i ≤ j) is exactly the characters number
+`i … j-1`; every index reported by `indices($y)` is a character position (`< length`) at whose
+byte offset the bytes of `$y` occur -/
+theorem length_slice_indices_count_chars (s y : Bytes) :
+    strLength s = (Utf8.chars s).length ∧
+    (∀ i j : Nat, i ≤ j →
+      sliceChars s (some (Int.ofNat i)) (some (Int.ofNat j)) = (((Utf8.chars s).drop i).take (j - i)).flatten) ∧
+    (∀ k ∈ indicesStr s y, k < strLength s ∧ y.isPrefixOf (s.drop (boundary s k)) = true) :=
+  ⟨strLength_eq_chars s, fun i j h => sliceChars_eq s i j h, fun k hk => indicesStr_sound s y k hk⟩
+
+/- FULL STATEMENT (not proved): for every `k ∈ indicesStr s y`: `sliceChars s k (k + strLength y) = y`
+   (the manual's `.[i:][:$x|length] == $x`).  It is FALSE for the code as it is when `y` ends in a
+   truncated UTF-8 sequence: `"€" | indices("\xE2")` yields `[0]` but `"€"[0:1] = "€" ≠ "\xE2"`
+   (finding `c13-prop:indices_slice:needle-ends-in-truncated-sequence`). -/
+example : indicesStr [0xE2, 0x82, 0xAC] [0xE2] = [0] ∧
+    sliceChars [0xE2, 0x82, 0xAC] (some 0) (some 1) = [0xE2, 0x82, 0xAC] := by decide
+
+/-- the offset lookup of `Match::new` (repaired, stateless version) is total on character
+boundaries and inverts `boundary` -/
+theorem match_offset_total (s : Bytes) (k : Nat) (hk : k ≤ (Utf8.chars s).length) :
+    charOfByte s (boundary s k) = some k :=
+  charOfByte_boundary s k hk
+
+/- The code AS IT IS shares one forward-only iterator between all capture groups of all matches
+   (`ByteChar`), so a group that starts before the previously looked-up group makes
+   `char_of_byte(..).unwrap()` panic: `"ba" | match("(?:(a)|(b))+")` (groups: whole 0..2, (a) 1..2,
+   (b) 0..1).  Finding `c13-rx-panic:char_of_byte-unwrap`. -/
+example : regexParts [98, 97] false false false true [[⟨0, 2, none⟩, ⟨1, 2, none⟩, ⟨0, 1, none⟩]] = none := by decide
+
+/-- `.[m.offset : m.offset + m.length] == m.string`: for a byte range `[start, stop)` that lies on
+character boundaries `i ≤ j` of the subject, `Match::new` (first lookup on a fresh iterator, or the
+repaired lookup) yields offset `i`, length `j - i`, and slicing the subject by these character
+positions gives back exactly the matched bytes.
+PARTIAL: the hypothesis `hstable` (chunking the matched substring alone gives the same characters as
+inside the subject) always holds for bstr's decoder — a character's extent depends on at most one
+byte after it, and only by its absence or invalidity — but that truncation lemma is not proved here. -/
+theorem match_slice_eq_string_partial (s : Bytes) (c : Cap) (i j : Nat) (hij : i ≤ j)
+    (hj : j ≤ (Utf8.chars s).length) (hs : c.start = boundary s i) (he : c.stop = boundary s j)
+    (hstable : Utf8.chars ((s.drop c.start).take (c.stop - c.start)) = ((Utf8.chars s).drop i).take (j - i)) :
+    ∃ m, matchNewFixed s c = some m ∧ (matchNew s (byteCharNew s) c).1 = some m ∧
+      m.offset = i ∧ m.length = j - i ∧
+      sliceChars s (some (Int.ofNat m.offset)) (some (Int.ofNat (m.offset + m.length))) = m.string := by
+  have hoff : charOfByte s c.start = some i := by rw [hs]; exact charOfByte_boundary s i (by omega)
+  have hstr : (s.drop c.start).take (c.stop - c.start) = (((Utf8.chars s).drop i).take (j - i)).flatten := by
+    rw [hs, he]
+    have := flatten_slice (Utf8.chars s) i j hij
+    rw [chars_flatten] at this
+    exact this
+  have hlen : strLength ((s.drop c.start).take (c.stop - c.start)) = j - i := by
+    rw [strLength_eq_chars, hstable]
+    simp only [List.length_take, List.length_drop]
+    omega
+  refine ⟨{ offset := i, length := j - i, string := (s.drop c.start).take (c.stop - c.start), name := c.name }, ?_, ?_, rfl, rfl, ?_⟩
+  · simp only [matchNewFixed, hoff, Option.map_some, hlen]
+  · have h2 : (charOfByteStateful (byteCharNew s) c.start).1 = some i := hoff
+    simp only [matchNew]
+    generalize hcb : charOfByteStateful (byteCharNew s) c.start = r at h2
+    obtain ⟨o, bc'⟩ := r
+    simp only at h2
+    subst h2
+    simp only [Option.map_some, hlen]
+  · simp only
+    have hji : i + (j - i) = j := by omega
+    rw [hji, sliceChars_eq s i j hij, hstr]
+
+example : -- "a€b": the match "€b" = bytes 1..5 = characters 1..3
+    let s : Bytes := [97, 0xE2, 0x82, 0xAC, 98]
+    boundary s 1 = 1 ∧ boundary s 3 = 5 ∧
+    Utf8.chars ((s.drop 1).take 4) = ((Utf8.chars s).drop 1).take 2 ∧
+    (matchNew s (byteCharNew s) ⟨1, 5, none⟩).1 = some ⟨1, 2, [0xE2, 0x82, 0xAC, 98], none⟩ := by decide
+
+/-- the unmatched parts from `split_matches` / `splits` interleaved with the matches reassemble
+the subject exactly, for every flag combination (`g` global, `n` skip empty matches), provided the
+engine's matches are ordered and do not overlap -/
+theorem splits_interleave_reassemble (s : Bytes) (g n : Bool) (caps : List (List Cap)) (parts : List Part)
+    (hord : capsOrdered s.length 0 caps) (h : regexParts s g n true true caps = some parts) :
+    (parts.map Part.text).flatten = s := by
+  have := regexLoop_reassemble s g n caps (byteCharNew s) 0 parts hord h
+  simpa using this
+
+example : capsOrdered 5 0 [[⟨1, 2, none⟩], [⟨2, 2, none⟩], [⟨4, 5, none⟩]] := by
+  simp [capsOrdered]
+
+/-! ## 4. escaping is safe for the consumers -/
+
+/-- a POSIX shell splits `@sh` output into exactly the original arguments — strings byte for byte
+(any byte: quotes, `$`, backquotes, newlines, globs, invalid UTF-8), null / booleans / numbers as
+their printed text — and meets nothing it would interpret -/
+theorem shWords_sh (xs : List ShArg) (h : ∀ x ∈ xs, x.ok = true) :
+    shWords (sh xs) = some (xs.map ShArg.text) :=
+  shLex_sh xs h
+
+example : (ShArg.raw [45, 49, 50]).ok = true ∧ (ShArg.raw nullB).ok = true ∧ (ShArg.raw trueB).ok = true ∧
+    (ShArg.str [39, 36, 40, 10, 96, 0xFF]).ok = true := by decide
+
+/-- … also inside format strings (`@sh "echo \(f) …"`): wherever the shell is outside quotes —
+whatever word `cur` is in progress, whatever text `rest` follows — the interpolated `'…'` adds
+exactly the original bytes to the current word and leaves the shell outside quotes -/
+theorem sh_in_format_string (s : Bytes) (cur : Option Bytes) (rest : Bytes) :
+    shLex false cur (shQuote s ++ rest) = shLex false (some (cur.getD [] ++ s)) rest :=
+  shLex_shQuote s cur rest
+
+/-- an RFC 4180 reader gets back exactly one record with exactly the original fields, strings
+(quoted) byte for byte — commas, quotes, CR, LF included — and the other fields as their text.
+(`[]` and `[null]` both print as the empty line, which has no record: excluded by `hne`.) -/
+theorem csvRead_csv (row : List Field) (hok : ∀ f ∈ row, f.csvOk = true) (hne : csvRow row ≠ []) :
+    csvRead (csvRow row) = some [row.map Field.csvView] :=
+  csvRead_csvRow row hok hne
+
+example : (Field.num [45, 49, 55]).csvOk = true ∧ (Field.str [44, 34, 13, 10]).csvOk = true ∧
+    csvRow [.str [44, 34], .null, .bool true] ≠ [] := by decide
+
+/-- a TSV reader gets back exactly the original fields of a non-empty row as text: tabs, line feeds,
+CR, backslashes and NUL inside strings are restored, and no field boundary is added or lost -/
+theorem tsvRead_tsv (row : List Field) (hne : row ≠ []) (hok : ∀ f ∈ row, f.tsvOk = true) :
+    tsvReadRow (tsvRow row) = row.map Field.rawText ∧ (10 : UInt8) ∉ tsvRow row := by
+  refine ⟨tsvReadRow_tsvRow row hne hok, ?_⟩
+  -- no raw line feed: a row never spans two records
+  have hfield : ∀ f ∈ row, (10 : UInt8) ∉ tsvField f := by
+    intro f hf
+    have := hok f hf
+    cases f with
+    | null => simp [tsvField, Field.rawText]
+    | bool b => cases b <;> decide
+    | num t =>
+      simp only [Field.tsvOk, Bool.and_eq_true, Bool.not_eq_true', List.contains_eq_mem, decide_eq_false_iff_not] at this
+      exact this.1.2
+    | str s => exact (tsvEscape_no_tab s).2
+  unfold tsvRow
+  have hj : ∀ xs : List Bytes, (∀ x ∈ xs, (10 : UInt8) ∉ x) → (10 : UInt8) ∉ joinWith [9] xs := by
+    intro xs
+    induction xs with
+    | nil => intro _; simp [joinWith]
+    | cons x t ih =>
+      intro hx
+      cases t with
+      | nil => simpa [joinWith] using hx x (by simp)
+      | cons y r =>
+        rw [joinWith_cons_cons]
+        simp only [List.mem_append, List.mem_singleton, not_or]
+        refine ⟨⟨hx x (by simp), by decide⟩, ih (fun z hz => hx z (by simp only [List.mem_cons] at hz ⊢; right; exact hz))⟩
+  apply hj
+  intro x hx
+  obtain ⟨f, hf, rfl⟩ := List.mem_map.mp hx
+  exact hfield f hf
+
+/-- an HTML entity decoder recovers exactly the original string from `@html` output, and none of
+`<` `>` `'` `"` survives in it (`&` only as the first byte of one of the five references) -/
+theorem htmlDecode_html (s : Bytes) :
+    htmlDecode (html s) = s ∧ ∀ c ∈ html s, c ≠ 60 ∧ c ≠ 62 ∧ c ≠ 39 ∧ c ≠ 34 := by
+  refine ⟨scan_flatMap' htmlDecodeStep htmlEsc htmlEsc_ne_nil htmlDecodeStep_htmlEsc s, ?_⟩
+  intro c hc
+  unfold html at hc
+  obtain ⟨b, _, hb⟩ := List.mem_flatMap.mp hc
+  exact htmlEsc_no_meta b c hb
+
+/-- an RFC 3986 percent-decoder recovers exactly the original string from `@uri` output, and the
+output consists of unreserved bytes (`A-Za-z0-9-._~`) and `%` only -/
+theorem percentDecode_uri (s : Bytes) :
+    percentDecode (uri s) = s ∧ ∀ c ∈ uri s, isUnreserved c = true ∨ c = 37 :=
+  ⟨scan_flatMap' percentStep uriEsc uriEsc_ne_nil percentStep_uriEsc s, uri_bytes s⟩
 
 end Jaq.C13.Props
